@@ -856,6 +856,8 @@ func genC01(ctx *hx.Ctx, emit func(hx.Case)) {
 func c01NotDfltCases() []hx.Case {
 	d0 := map[string]any{"properties": map[string]any{"a": map[string]any{"default": "d"}}}
 	d0z := map[string]any{"properties": map[string]any{"a": map[string]any{"default": "d"}}, "required": []any{"zz"}} // writes, then fails
+	// a child whose OWN verdict depends on the written default (outside the neutral class: the model is the reference there)
+	d0r := map[string]any{"properties": map[string]any{"a": map[string]any{"default": "d"}}, "required": []any{"a"}}
 	// a path from the visited value down to the object the default lands in
 	type path struct {
 		wrap func(leaf map[string]any) map[string]any
@@ -886,7 +888,7 @@ func c01NotDfltCases() []hx.Case {
 	var out []hx.Case
 	for pi, pa := range paths {
 		var nots []map[string]any
-		nots = append(nots, pa.wrap(d0), pa.wrap(d0z),
+		nots = append(nots, pa.wrap(d0), pa.wrap(d0z), pa.wrap(d0r),
 			map[string]any{"allOf": []any{pa.wrap(d0), map[string]any{"enum": []any{"never"}}}}) // writes in the first member, fails in the second
 		for _, n := range nots {
 			for _, own := range owns {
